@@ -81,6 +81,11 @@ def config_case(draw):
         case['opts'] = draw(st.sampled_from(['', '!sync', '!no-bgr!maxfps=10', ';cam', '!loop=2;cam2'])) if cls == 'VideoIn' else \
             draw(st.sampled_from(['', '!fps=30', ';main', '!fps=15;cam']))
         case['run'] = draw(st.booleans())
+    elif draw(st.integers(0, 5)) == 0:
+        # a credentialed URI where only tcp:// / ipc:// addresses are accepted: init() refuses it with an error that quotes it
+        case['where'], case['fail'] = 'mq', True
+        case['scheme'] = draw(st.sampled_from(SCHEMES_ANY))
+        case['form'] = draw(st.sampled_from(['str', 'commastr', 'list']))
     else:
         case['where'] = 'custom'
         case['scheme'] = draw(st.sampled_from(SCHEMES_ANY))
@@ -183,6 +188,8 @@ BASE_CFG = {
     'Webvis': {'id': 'f', 'sources': 'tcp://localhost:5550', 'outputs': 'http://0.0.0.0:8000'},
     'Recorder': {'id': 'f', 'sources': 'tcp://localhost:5550', 'outputs': 'file:///tmp/rec.txt'},
 }
+MQ_KEY = {'Base': 'sources', 'Util': 'outputs', 'VideoIn': 'outputs', 'VideoOut': 'sources', 'ImageIn': 'outputs', 'ImageOut': 'sources', 'MQTTOut': 'sources',
+          'REST': 'outputs', 'Webvis': 'sources', 'Recorder': 'sources'}       # the side of each filter that goes over the message queue
 FAIL_KEY = {'Base': ('mq_log', 'bogus'), 'Util': ('log', 'bogus'), 'VideoIn': ('outputs', None), 'VideoOut': ('sources', None),
             'ImageIn': ('outputs', None), 'ImageOut': ('sources', None), 'MQTTOut': ('mq_log', 'bogus'), 'REST': ('mq_log', 'bogus'),
             'Webvis': ('sources', None), 'Recorder': ('sources', None)}
@@ -198,6 +205,11 @@ def build_config(case):
     embed = case['fail'] and case.get('embed') and case['where'] == 'io'
     if embed and case['cls'] == 'VideoOut':
         uri = uri_of(c, 'http')           # "this filter only accepts video file:// and rtsp:// outputs, not '<uri>'"
+    if case['where'] == 'mq':
+        key = MQ_KEY[case['cls']]
+        good = 'tcp://localhost:5551' if key == 'sources' else 'tcp://*:5552'
+        cfg[key] = uri if case['form'] == 'str' else f'{good}, {uri}' if case['form'] == 'commastr' else [good, uri]
+        return cfg
     if case['where'] == 'io':
         if c.get('umid') == '!':
             c = {**c, 'umid': '$'}      # '!' followed by an identifier-like user half would read as an option in the text forms
@@ -268,7 +280,7 @@ def run_config(case):
     f = None
     metas = []
     stage = 'construct'
-    classes = [f'class {case["cls"]}', f'where {case["where"]}' + (f' {case.get("form")}' if case['where'] == 'io' else f' depth {len(case["nest"])}'),
+    classes = [f'class {case["cls"]}', f'where {case["where"]}' + (f' {case.get("form")}' if case['where'] in ('io', 'mq') else f' depth {len(case["nest"])}'),
                'normalisation fails' if case['fail'] else 'normalisation ok']
     flt.MQ = _M['StubMQ']
     try:
@@ -333,7 +345,7 @@ def run_config(case):
             i = text.find(lk[1])
             return bad(f'{lk[0]} appears in lineage event {getattr(ev, "eventType", "?")}: ...{text[max(0, i - 80):i + 40]!r}', f'lineage-leak:{case["where"]}', classes)
     special = any(ch in c['mid'] for ch in '!:/?#%')
-    nontrivial = special or case['where'] == 'io' and case['form'] != 'str' or case['where'] == 'custom' and len(case['nest']) > 0
+    nontrivial = special or case['where'] in ('io', 'mq') and case['form'] != 'str' or case['where'] == 'custom' and len(case['nest']) > 0
     if special:
         classes.append('password with special characters')
     return ok(nontrivial, classes, {'log_lines': len(cap.lines), 'lineage_events': len(client.events), 'metas': len(metas)})
